@@ -104,6 +104,43 @@ def field_deps(P, cls):
     return clo
 
 
+def _trig_accumulator(P, F, key):
+    """(lo, hi) if the local `key` of F starts from a literal c and is otherwise only assigned std::max(key, E...) where every
+    E is sin/cos of something (or a std::max of such): then c <= key <= max(c, 1). None otherwise."""
+    init = None
+    for x in F.walk():
+        if x.get("k") == "VarDecl" and x.get("r") == key and x.get("c"):
+            v = sc(x["c"][0])
+            if v.get("k") in ("FloatingLiteral", "IntegerLiteral"):
+                init = float(v["v"])
+    if init is None:
+        return None
+
+    def trig(e):
+        e = sc(e)
+        if e.get("k") == "CallExpr":
+            qn = P.d(e.get("callee")).get("qn")
+            if qn in ("std::sin", "sin", "std::cos", "cos"):
+                return True
+            if qn in ("std::max", "std::min"):
+                return all(trig(a) or astq.is_ref_to(sc(a), key) for a in e["c"][1:])
+        return False
+    nass = 0
+    for x in F.walk():
+        if x.get("k") in ("BinaryOperator", "CompoundAssignOperator") and x.get("op") in ("=", "+=", "-=", "*=", "/=") and astq.is_ref_to(sc(x["c"][0]), key):
+            if x.get("op") != "=":
+                return None
+            r = sc(x["c"][1])
+            if not (r.get("k") == "CallExpr" and P.d(r.get("callee")).get("qn") == "std::max" and any(astq.is_ref_to(sc(a), key) for a in r["c"][1:]) and trig(r)):
+                return None
+            nass += 1
+        if x.get("k") == "UnaryOperator" and x.get("op") in ("++", "--", "&") and astq.is_ref_to(sc(x["c"][0]), key):
+            return None
+    if nass == 0:
+        return None
+    return (init, max(init, 1.0))
+
+
 def culling(P, rep, rule="DEP.culling"):
     rep.rule(rule, "a depth cut-off that is not the feature's own max depth must depend on everything the depth extent of the "
                    "slab/fault depends on: its min depth (the surface starts there), all segment lengths and thicknesses; the "
@@ -186,23 +223,67 @@ def culling(P, rep, rule="DEP.culling"):
                         if nd.get("k") == "CallExpr" and P.d(nd.get("callee")).get("qn") in ("std::hypot", "hypot") and len(nd["c"]) == 3:
                             return sp.sqrt(symb(nd["c"][1]) ** 2 + symb(nd["c"][2]) ** 2)
                         return None
-                    symb = norm.Sym(P, F, inline_locals=True, hook=hk)
+                    # a field that is none of the three is replaced by what parse_entries stores in it (one plain assignment);
+                    # a local of parse_entries that only accumulates std::max(local, sin/cos(...)) from a literal start lies in
+                    # [start, 1]: it is kept as a symbol and sampled over that range
+                    PE = P.func(cls + "::parse_entries")
+                    ranges = {}
+
+                    def hk_pe(nd):
+                        r0 = hk(nd)
+                        if r0 is not None:
+                            return r0
+                        if nd.get("k") == "DeclRefExpr" and P.d(nd.get("r")).get("storage") == "local":
+                            rg = _trig_accumulator(P, PE, nd["r"])
+                            if rg is not None:
+                                q = sp.Symbol("acc_" + nd.get("n", "?"))
+                                ranges[q] = rg
+                                return q
+                        return None
+                    symb_pe = norm.Sym(P, PE, inline_locals=True, hook=hk_pe)
+
+                    def hk2(nd):
+                        r0 = hk(nd)
+                        if r0 is not None:
+                            return r0
+                        if nd.get("k") == "MemberExpr" and astq.is_this_field(P, nd):
+                            defs = [x for x in PE.walk() if x.get("k") in ("BinaryOperator", "CompoundAssignOperator") and x.get("op", "").endswith("=")
+                                    and x.get("op") not in ("==", "!=", "<=", ">=") and sc(x["c"][0]).get("k") == "MemberExpr"
+                                    and sc(x["c"][0]).get("r") == nd.get("r") and astq.is_this_field(P, sc(x["c"][0]))]
+                            if len(defs) == 1 and defs[0].get("op") == "=":
+                                try:
+                                    return symb_pe(defs[0]["c"][1])
+                                except Exception:
+                                    return None
+                        return None
+                    symb = norm.Sym(P, F, inline_locals=True, hook=hk2)
                     try:
                         slack = sp.simplify(symb(bound) - S0 - L_ - T_)
                     except Exception:
                         slack = None
                     refuted = None
-                    if slack is not None and not (slack.free_symbols - {S0, L_, T_}):
+                    if slack is not None and not (slack.free_symbols - {S0, L_, T_} - set(ranges)):
+                        extra = sorted(slack.free_symbols & set(ranges), key=str)
+                        import itertools
+                        grids = [[ranges[q][0], (ranges[q][0] + ranges[q][1]) / 2.0, ranges[q][1]] for q in extra]
                         for sv, lv, tv in ((0, 3, 4), (1e5, 4e5, 1e5), (0, 1, 0), (0, 0, 1), (2e5, 1e6, 2e5)):
-                            try:
-                                val = float(slack.subs({S0: sv, L_: lv, T_: tv}))
-                            except Exception:
-                                val = 0.0
-                            if val < -1e-9 * (1 + sv + lv + tv):
-                                refuted = (sv, lv, tv, val)
+                            for ev in itertools.product(*grids):
+                                try:
+                                    val = float(slack.subs({S0: sv, L_: lv, T_: tv}).subs(dict(zip(extra, ev))))
+                                except Exception:
+                                    val = 0.0
+                                if val < -1e-9 * (1 + sv + lv + tv):
+                                    refuted = (sv, lv, tv, val) if not extra else (sv, lv, tv, val, dict(zip(map(str, extra), ev)))
+                                    break
+                            if refuted is not None:
                                 break
+                    elif slack is not None:
+                        rep.unknown(rule, "%s: depth cut-off `%s` depends on %s, whose range this rule cannot bound" % (
+                            keyfield, txt, sorted(str(q) for q in slack.free_symbols - {S0, L_, T_} - set(ranges))))
+                        continue
                     if refuted is not None:
-                        rep.violation(rule, "%s: depth cut-off `%s` lies %.6g above min depth + length + thickness for (min depth, L, T) = %s" % (keyfield, txt, -refuted[3], refuted[:3]),
+                        rep.violation(rule, "%s: depth cut-off `%s` lies %.6g above min depth + length + thickness for (min depth, L, T) = %s%s" % (
+                                          keyfield, txt, -refuted[3], refuted[:3], (" with %s" % refuted[4]) if len(refuted) > 4 else ""),
                                       F.nloc(c), F.qn, txt, "a feature whose segments go down and then flatten reaches min depth + length + thickness: points of it are cut off",
                                       key="%s|%s|cutoff-value" % (rule, cls), witness="a slab with a vertical first segment and a horizontal second one, point near its lower edge")
                     else:
